@@ -26,7 +26,7 @@ structure Env where
 
 /-- the built-in schemes, built by the model of `build_schemes` from the generated definitions -/
 def initEnv : Env :=
-  match buildSchemes { tbl := Generated.classTable, order := Generated.extendClassOrder } Generated.schemeDefs with
+  match buildSchemesTop { tbl := Generated.classTable, order := Generated.extendClassOrder } Generated.schemeDefs with
   | .ok (st, ss) => { tbl := st.tbl, schemes := ss, buildErr := none }
   | .error e => { tbl := Generated.classTable, schemes := [], buildErr := some e }
 
@@ -456,7 +456,7 @@ def dispatch (env : Env) (j : Json) : Json :=
     match checkSchemeData C0 defs with
     | .error e => Json.mkObj [("exc", Json.str (errName e))]
     | .ok () =>
-      match buildSchemes { tbl := Generated.classTable, order := Generated.extendClassOrder } defs with
+      match buildSchemesTop { tbl := Generated.classTable, order := Generated.extendClassOrder } defs with
       | .error e => Json.mkObj [("exc", Json.str (errName e))]
       | .ok (st, ss) =>
         if !validateSchemes (noRestrictionsClass :: ss.map (·.2)) then Json.mkObj [("exc", "ValueError")]
